@@ -444,11 +444,15 @@ def run(tier, R):
                 else:
                     tasks.append(("p1x", mode, (a, b), 4, None))
             else:
-                if a == 0x1B:
+                # (length 6 with two cuts for every ESC-prefixed triple, and splits of every length-5 string, are ~10^9 deliveries: did not fit the budget)
+                if a == 0x1B and b in (0x1B, ord("["), ord("O")):
                     for c in ALPHA:
                         tasks.append(("p1x", mode, (a, b, c), 6, (2, 1)))
+                elif a == 0x1B:
+                    tasks.append(("p1x", mode, (a, b), 5, (2, 1)))
                 else:
-                    tasks.append(("p1x", mode, (a, b), 5, (1, 1)))
+                    tasks.append(("p1x", mode, (a, b), 5, None))
+                    tasks.append(("p1x", mode, (a, b), 4, (1, 1)))
     known = known_streams()
     for mode in MODES:
         extra = malformed_sgr() + (utf8_streams() if mode == "utf8" else wide_streams() if mode == "wide" else [])
@@ -472,7 +476,7 @@ def run(tier, R):
         "evaluations": ev,
         "distinct_nontrivial": len(R.ctx.sets.get("nontrivial", ())),
         "rule": "part 1: every byte string over a 24-byte alphabet (ESC [ O < M m ; 0 1 9 ~ A R a space 80 c3 a9 e4 bd a0 a1 DEL CR) up to length "
-        f"{4 if quick else 5} ({5 if quick else 6} when ESC-prefixed) x 3 encoding modes, whole delivery vs the reference decoder, and every cut set "
+        f"{4 if quick else 5} ({5 if quick else '5, 6 after ESC ESC / ESC [ / ESC O,'} when ESC-prefixed) x 3 encoding modes, whole delivery vs the reference decoder, and every cut set "
         "(length <= 3: all cuts, <= 2 time-outs; longer: bounded cuts) x completion time-out firing or not after each cut; part 2b: every single-byte "
         "substitution/insertion/deletion from a 17-byte confusable set inside documented streams; part 2: all "
         f"{len(known)} documented streams (468 table sequences, X10 reports for every button byte, SGR reports buttons 0-127, CPR) + malformed SGR/CPR + "
